@@ -111,6 +111,7 @@ def run(chk):
             raise Broken("a pointer member may point at several own members: %s" % selfptr)
         sp_map = {k: next(iter(v)) for k, v in selfptr.items()}
         owning = [f["name"] for f in fields if field_kind(f["ty"]) == "owning"]
+        check_rvalue_sources(chk, F, cls, rec, sp_map)
         import itertools
         cfgs = [dict(zip(sorted(sp_map), c)) for c in itertools.product(("own", "ext"), repeat=len(sp_map))]
         for op in (cc[0], ca[0]):
@@ -234,6 +235,7 @@ def run(chk):
     chk.floor("C15-R2", 4)
     chk.floor("C15-R3", 3)
     chk.floor("C15-R1", 20)
+    chk.floor("C15-R5", 2)
 
     # R4 value classes
     n4 = 0
@@ -270,6 +272,35 @@ def run(chk):
     chk.floor("C15-R4", 100)
     chk.not_decided = ["run-time behaviour of user-supplied maps after the source is destroyed (they are referenced, not owned, by design)"]
     chk.trusted.append("C++ object semantics: member-wise copy of value-typed members cannot alias")
+
+
+def check_rvalue_sources(chk, F, cls, rec, sp_map):
+    """R5: a copy may also be taken from an rvalue (a returned temporary, std::move, a growing std::vector).  With no move
+    operations declared, rvalues bind to the copy operations and R1-R3 decide them.  A defaulted move operation moves
+    member by member: a pointer that points at a member of the source is copied as it is, so the destination shares the
+    source's map and dangles once the source is gone."""
+    where = "%s:%s" % (rec["file"], rec["line"])
+    short = cls.split("<")[0].split("::")[-1]
+    own = lambda f: any((p["ty"].get("ref") == "rvalue") and (p["ty"].get("n") or "").replace(" ", "") == cls.replace(" ", "") for p in f["params"][:1]) and len(f["params"]) == 1
+    for flag, is_ctor in (("userMoveCtor", True), ("userMoveAssign", False)):
+        what = "move construction" if is_ctor else "move assignment"
+        if not rec.get(flag):
+            chk.ob("C15-R5", "%s: %s from an rvalue goes through the copy operations" % (cls, "construction" if is_ctor else "assignment"), True, where,
+                   "no move %s declared: rvalue sources bind to the copy %s (R1-R3)" % ("constructor" if is_ctor else "assignment", "constructor" if is_ctor else "assignment"), construct="%s/%s" % (cls, flag))
+            continue
+        bodies = [f for f in F.funcs(cls) if own(f) and ((is_ctor and f.get("kind") == "ctor") or (not is_ctor and f["name"] == "operator="))]
+        decls = [m for m in rec.get("methods", []) if m.get("nparams") == 1 and ((is_ctor and m.get("kind") == "ctor" and m["name"].split("<")[0] == short) or (not is_ctor and m["name"] == "operator="))]
+        if bodies:
+            raise Broken("%s has a user-provided %s; it is not analysed (only the copy operations are)" % (cls, what))
+        dele = [m for m in decls if m.get("deleted")]
+        dflt = [m for m in decls if m.get("defaulted")]
+        if dele and not dflt:
+            chk.ob("C15-R5", "%s: %s is deleted" % (cls, what), True, where, "rvalue sources are rejected at compile time", construct="%s/%s" % (cls, flag))
+            continue
+        if not dflt:
+            raise Broken("%s declares a %s whose definition was not extracted" % (cls, what))
+        chk.ob("C15-R5", "%s: defaulted %s of a class whose pointer members may point at its own members" % (cls, what), not sp_map, "%s:%s" % (rec["file"], dflt[0].get("line")),
+               "member-wise move copies %s as they are: when the source uses its own default, the destination points into the source" % sorted(sp_map), construct="%s/%s" % (cls, flag))
 
 
 def sharing_kind(F, ty, seen):
